@@ -977,7 +977,7 @@ def correspondence(r, kind, schedules, label, max_report=3):
             nbad += 1
             if nbad <= max_report:
                 s, obs = shard[i]
-                small = shrink(s, lambda c: bool(differs(c)), budget=30) if nbad == 1 else s
+                small = shrink(s, lambda c: bool(differs(c)), budget=30) if nbad == 1 and not r.violations else s
                 r.broken('correspondence', f"{label}: model and implementation differ in "
                          + ", ".join(DIFF_NAMES.get(c, str(c)) for c in codes),
                          json.dumps(dict(schedule={k: v for k, v in small.items() if k != 'cats'},
